@@ -142,7 +142,23 @@ def run_sequence(text, info, seq_seed, length):
     return None
 
 
+def graph_readonly(text):
+    from blackbird.utils import to_DiGraph
+    r = core.impl_loads(text)
+    if r[0] != "ok":
+        return "refused: %r" % (r[1],)
+    before = snapshot(r[1])
+    with core.quiet():
+        to_DiGraph(r[1])
+    after = snapshot(r[1])
+    if before != after:
+        return "to_DiGraph changed the program: serialisation %r -> %r" % (before[0], after[0])
+    return None
+
+
 def replay(ctx, data):
+    if data.get("kind") == "graph_readonly":
+        return graph_readonly(data["text"])
     if data.get("kind") == "sequence":
         return run_sequence(data["text"], data["info"], data["seq_seed"], data["length"])
     return oracles.generic_replay(data)
